@@ -4,13 +4,11 @@ package c06
 
 import (
 	"bytes"
-	"errors"
 	"fmt"
 	"io"
 	"testing"
 
 	proto "github.com/golang/protobuf/proto"
-	oerrors "github.com/openacid/errors"
 	"github.com/openacid/low/iohelper"
 	"github.com/openacid/low/pbcmpl"
 	"pgregory.net/rapid"
@@ -21,6 +19,11 @@ import (
 )
 
 func TestMain(m *testing.M) { vk.Main(m, "C06") }
+
+// keep is checker.Keep (set in init: check is part of checker's own initialiser).
+var keep func(func() string)
+
+func init() { keep = checker.Keep }
 
 type Frame = pbm.FrameJ
 
@@ -72,7 +75,39 @@ func oddVersion(m proto.Message, sum uint64) {
 		x.Ver = vk.OddString(x.Ver, sum)
 	case *pbm.StringV:
 		x.Ver = vk.OddString(x.Ver, sum)
+	case *pbm.ListV:
+		x.Ver = vk.OddString(x.Ver, sum)
 	}
+}
+
+// keptHeader is a Header that ReadHeader returned together with what it reported then: it belongs to the
+// caller and must go on reporting the same figures whatever pbcmpl is asked to do afterwards.
+type keptHeader struct {
+	h     pbcmpl.Header
+	what  string
+	ver   string
+	bsize int64
+}
+
+func (k keptHeader) reread() string {
+	var ver string
+	var hs, bs int64
+	if fl := vk.Try("getters of a Header returned earlier", func() { ver, hs, bs = k.h.GetVersion(), k.h.GetHeaderSize(), k.h.GetBodySize() }); fl != nil {
+		return k.what + ": " + fl.Msg
+	}
+	if ver != k.ver || hs != 32 || bs != k.bsize {
+		return fmt.Sprintf("%s reported version %q header 32 body %d when ReadHeader returned it and reports version %q header %d body %d now", k.what, k.ver, k.bsize, ver, hs, bs)
+	}
+	return ""
+}
+
+func rereadAll(ks []keptHeader) string {
+	for _, k := range ks {
+		if s := k.reread(); s != "" {
+			return s
+		}
+	}
+	return ""
 }
 
 // openReader builds the reader kind of the case over data; consumed is nil where consumption cannot be
@@ -94,9 +129,9 @@ func openReader(kind string, sizes []int, data []byte) (r io.Reader, consumed fu
 
 var checker = &vk.Checker[Case]{
 	ID: "C06",
-	Rule: "streams of 1..6 frames x message kinds (real protobuf BytesValue/StringValue/Int64Value/Empty and a legacy Marshal/Unmarshal message, each also versioned where it can carry a version) x versions of 0..16 bytes not ending in NUL (interior NULs, '', '1.0.0', 16 bytes boosted; handed over half of the time as a substring at an odd address with foreign bytes around it) x payload lengths {0,1,2,31,32,33,127,128,...,16383,16384, up to 64 KiB thorough} and (1 frame in 10) a log-uniform magnitude up to 1 MiB (2 MiB thorough) or a multiple of a round piece size (512, 1000, 4096, 10000, 32768, 65536, 100000 ... 2^20) -+ the header; the grid sweeps every octave 16 KiB .. 1 MiB (8 MiB thorough): 2^k and 3*2^(k-1) -33/-32/-31/-1/0/+1, keyed lengths in between, decimal round numbers, and 2 MiB " +
+	Rule: "streams of 1..6 frames x message kinds (real protobuf BytesValue/StringValue/Int64Value/Empty, a legacy Marshal/Unmarshal message, and (1 frame in 6) a structpb.ListValue with repeated and nested content - strings, [string,bool], {key:string}, [[string],number] items cut from the payload, some with unknown fields - each also versioned where it can carry a version; a message object is used again for the next frame of its type, its sub-messages updated in place) x versions of 0..16 bytes not ending in NUL (interior NULs, '', '1.0.0', 16 bytes boosted; handed over half of the time as a substring at an odd address with foreign bytes around it) x payload lengths {0,1,2,31,32,33,127,128,...,16383,16384, up to 64 KiB thorough} and (1 frame in 10) a log-uniform magnitude up to 1 MiB (2 MiB thorough) or a multiple of a round piece size (512, 1000, 4096, 10000, 32768, 65536, 100000 ... 2^20) -+ the header; the grid sweeps every octave 16 KiB .. 1 MiB (8 MiB thorough): 2^k and 3*2^(k-1) -33/-32/-31/-1/0/+1, keyed lengths in between, decimal round numbers, and 2 MiB " +
 		"x sink {bytes.Buffer, iohelper.AtToWriter} x reader {whole, 1 byte per Read, drawn chunk sizes (list and log-uniform 1..128 KiB), data together with io.EOF, (0,nil) reads, iohelper.AtToReader, and the standard-library reader types bufio.Reader (default and 16-byte buffer), bytes.Reader, bytes.Buffer, strings.Reader, io.LimitReader, iotest.DataErrReader, iotest.HalfReader}; every other frame is decoded into a destination that already holds other content; half of the destinations carry a version of their own that differs from the frame's, or are of the unversioned type. Oracle: hand-written wire encoder (version NUL-padded to 16 | LE64(32) | LE64(len body) | body; protobuf bodies encoded by hand, self-tested against the protobuf library) and a stream model: " +
-		"bytes appended == expected, n == len == Size == HeaderSize+len(body), ReadHeader through the same reader kind == (32,{ver,32,len body}) taking exactly 32 bytes; the k-th Unmarshal returns the k-th message, the version written into the frame (whatever the destination says), n == frame length, cumulative consumption == sum of frame lengths (never reads into the next frame), then io.EOF with n=0. " +
+		"bytes appended == expected, n == len == Size == HeaderSize+len(body), ReadHeader through the same reader kind succeeds and reports {ver,32,len body} (its count and how much it takes from the stream are not asserted), and every Header it returned still reports the same after all later ReadHeader/Unmarshal calls of the case and of the next 8 cases; the k-th Unmarshal returns the k-th message, the version written into the frame (whatever the destination says), n == frame length, cumulative consumption == sum of frame lengths (never reads into the next frame), then no success on the exhausted stream (which error: C07). " +
 		"Non-trivial: >= 2 frames or a body length other than 32, read with a non-'whole' chunking. Distinct by hash of the case.",
 	Check:    check,
 	Classify: classify,
@@ -124,6 +159,7 @@ func check(c Case) *vk.Failure {
 		pbs[i] = fr.PB()
 	}
 	var prevMsg proto.Message
+	var kept []keptHeader
 	for i := range c.Frames {
 		f := pbs[i]
 		want := f.Wire()
@@ -161,22 +197,24 @@ func check(c Case) *vk.Failure {
 			return vk.Failf("size", "frame %d (%s): HeaderSize=%d Size=%d, frame has %d bytes (body %d)", i, f.Kind, hs, sz, len(want), blen)
 		}
 		// ReadHeader on the frame (followed by other bytes), through the reader kind of the case: it reports the
-		// header and takes exactly the 32 header bytes from the stream, however the reader chunks them
-		hr, hconsumed := openReader(c.Reader, c.Sizes, append(append(make([]byte, 0, len(want)+len(trailer)), want...), trailer...))
+		// header, however the reader chunks the bytes (how many bytes it takes from the stream is not stated)
+		hr, _ := openReader(c.Reader, c.Sizes, append(append(make([]byte, 0, len(want)+len(trailer)), want...), trailer...))
 		var hn int64
 		var h pbcmpl.Header
 		if fl := vk.Try(fmt.Sprintf("ReadHeader (%s reader)", c.Reader), func() { hn, h, err = pbcmpl.ReadHeader(hr) }); fl != nil {
 			return fl
 		}
-		if err != nil || hn != 32 || h == nil {
+		if err != nil || h == nil {
 			return vk.Failf("readheader", "frame %d (%s reader): ReadHeader returned (%d, %v, %v)", i, c.Reader, hn, h, err)
-		}
-		if hconsumed != nil && hconsumed() != 32 {
-			return vk.Failf("readheader-consumption", "frame %d (%s reader): ReadHeader took %d bytes from the stream, the header has 32", i, c.Reader, hconsumed())
 		}
 		if h.GetVersion() != f.WantVersion() || h.GetHeaderSize() != 32 || h.GetBodySize() != int64(blen) {
 			return vk.Failf("readheader", "frame %d: ReadHeader reports version %q header %d body %d, want %q 32 %d", i, h.GetVersion(), h.GetHeaderSize(), h.GetBodySize(), f.WantVersion(), blen)
 		}
+		// the Headers returned so far still report what they reported (this ReadHeader was a later call for them)
+		if s := rereadAll(kept); s != "" {
+			return vk.Failf("readheader-kept", "after ReadHeader on frame %d: %s", i, s)
+		}
+		kept = append(kept, keptHeader{h: h, what: fmt.Sprintf("the Header of frame %d (%s, %d payload bytes)", i, f.Kind, len(f.Payload)), ver: f.WantVersion(), bsize: int64(blen)})
 		stream = append(stream, want...)
 		lens = append(lens, len(want))
 	}
@@ -210,17 +248,26 @@ func check(c Case) *vk.Failure {
 		if ok, s := f.SameContent(msg); !ok {
 			return vk.Failf("message", "frame %d (%s): decoded content %s differs from what was marshalled (%d payload bytes %x / int %d)", i, f.Kind, clipS(s), len(f.Payload), clip(f.Payload), f.Int)
 		}
+		if s := rereadAll(kept); s != "" {
+			return vk.Failf("readheader-kept", "after Unmarshal of frame %d: %s", i, s)
+		}
 	}
-	// after the last frame: clean EOF
+	// after the last frame: one frame per call and no more - Unmarshal does not report success (which error
+	// it reports for an exhausted stream, and which count, is property C07's business)
 	var n int64
 	var err error
 	last := pbs[len(pbs)-1]
 	if fl := vk.Try("Unmarshal at end of stream", func() { n, _, err = pbcmpl.Unmarshal(r, last.Fresh()) }); fl != nil {
 		return fl
 	}
-	if n != 0 || err == nil || (oerrors.Cause(err) != io.EOF && !errors.Is(err, io.EOF)) { // "cause": either wrapping convention
-		return vk.Failf("end-of-stream", "Unmarshal after the last frame returned (n=%d, err=%v), want (0, cause io.EOF)", n, err)
+	if err == nil {
+		return vk.Failf("end-of-stream", "Unmarshal after the last frame reported success (n=%d)", n)
 	}
+	if s := rereadAll(kept); s != "" {
+		return vk.Failf("readheader-kept", "after Unmarshal at the end of the stream: %s", s)
+	}
+	// ... and after the calls of later cases
+	keep(func() string { return rereadAll(kept) })
 	return nil
 }
 
@@ -275,6 +322,9 @@ func classify(c Case) (bool, []string) {
 			if c.Dest[i] == "otherver" && pbm.HasVersionedForm(f.Kind) || c.Dest[i] == "plain" && f.Versioned {
 				labels = append(labels, "dest:version-differs-from-frame")
 			}
+		}
+		if f.Kind == "list" && pbm.ListHasUnknown(max(len(f.Payload), f.FillLen)) {
+			labels = append(labels, "list:unknown-fields")
 		}
 		if f.Versioned {
 			labels = append(labels, "versioned")
@@ -339,6 +389,9 @@ func genCase(t *rapid.T) Case {
 		if gen.Chance(t, 1, 10, "long") {
 			// lengths without holes up to 1 MiB (2 MiB thorough): log-uniform magnitude, multiples of round piece sizes
 			c.Frames = append(c.Frames, pbm.GenLongFrame(t, vk.Pick(1<<20, 2<<20)))
+		} else if gen.Chance(t, 1, 6, "list") {
+			// a message with repeated and nested content
+			c.Frames = append(c.Frames, pbm.GenListFrame(t, maxPayload))
 		} else {
 			c.Frames = append(c.Frames, pbm.GenFrame(t, maxPayload))
 		}
@@ -371,7 +424,7 @@ func TestProp(t *testing.T) { checker.Prop(t, genCase) }
 // FuzzProp: the same generator driven by the native coverage-guided fuzzer (thorough tier only).
 func FuzzProp(f *testing.F) { checker.Fuzz(f, genCase) }
 
-// TestGrid: a deterministic table: every kind x {unversioned, versioned ”/'1.2.3'/16 bytes} x body lengths around the boundaries x every reader mode.
+// TestGrid: a deterministic table: lists of changing content; every kind x {unversioned, versioned ”/'1.2.3'/16 bytes} x body lengths around the boundaries x every reader mode.
 func TestGrid(t *testing.T) {
 	vk.SetPhase("grid")
 	// bodies around every power of two (alone and with the 32-byte header) and one frame of several MiB
@@ -411,7 +464,17 @@ func TestGrid(t *testing.T) {
 	}
 	checker.Run(t, Case{Frames: []Frame{{Kind: "raw", Payload: big}, {Kind: "bytes", Payload: []byte("after the big one")}, {Kind: "bytes", Payload: big[:1<<20+1]}}, Sink: "attowriter", Reader: "sizes", Sizes: []int{65536, 1 << 20, 4095}})
 	vers := [][]byte{nil, {}, []byte("1.2.3"), []byte("0123456789abcdef"), []byte("a\x00b")}
-	for _, kind := range pbm.Kinds {
+	// the structured kind: lists of different content one after the other (the message object and its items are
+	// used again: see check), item lengths on both sides of the one-byte length prefix, long items
+	for i, n := range []int{1, 5, 60, 61, 62, 126, 127, 128, 129, 300, 2047, 2048, 5000, 20000, 100000} {
+		fr := func(n int, key uint64, versioned bool) Frame {
+			return Frame{Kind: "list", FillLen: n, FillKey: vk.U64(key), Versioned: versioned, Ver: []byte("2.0.1")}
+		}
+		small := Frame{Kind: "list", Payload: []byte("abc")} // 3 payload bytes: one item and unknown fields
+		checker.Run(t, Case{Frames: []Frame{fr(n, 1, false), fr(n+3, 2, false), fr(max(n/2, 1), 3, false), small, fr(n, 4, true), fr(n+1, 5, true)},
+			Sink: "buffer", Reader: []string{"sizes", "whole", "one", "bufio"}[i%4], Sizes: []int{1000, 7, 4096}, Dest: []string{"", "plain", "", "", "otherver", "plain"}})
+	}
+	for _, kind := range pbm.KindsC06 {
 		for vi, ver := range vers {
 			if vi > 0 && !pbm.HasVersionedForm(kind) {
 				continue
